@@ -40,6 +40,10 @@ fn main() {
     if args.is_empty() {
         usage();
     }
+    if args[0] == "--c19-blob-worker" {
+        // one undecodable-state probe per process: decoding damaged bytes may abort
+        std::process::exit(c19::blob_worker(args.get(1).map(|s| s.as_str()).unwrap_or("")));
+    }
     if args[0] == "--replay" {
         let path = args.get(1).unwrap_or_else(|| usage());
         let text = std::fs::read_to_string(path).unwrap_or_else(|e| {
